@@ -13,7 +13,7 @@ class C36(M.MpiCheck):
     prof = dict(name='C36', np=(2, 8), nmsg=dict(quick=(4, 20), thorough=(4, 26)), ncomm=(0, 2), wild=0.5, probes=0.5,
                 midcoll=4, types='basic', gvars=True, priv=['mmap', 'dlopen'], cap=12000)
     own = ('global-leak',)
-    budgets = {'quick': dict(runs=1200, wall=40), 'thorough': dict(runs=20000, wall=780)}
+    budgets = {'quick': dict(runs=1200, wall=22), 'thorough': dict(runs=20000, wall=780)}
 
     def nontrivial(self, plan, res):
         return res['stats'].get('gchk_checked', 0) >= 2 * plan['np']
